@@ -24,6 +24,8 @@ func init() {
 		ruleU1(c, "C01.R9")
 		ruleDiskWrapper(c, "C01.R10")
 		ruleNullBlock(c, "C01.R11")
+		ruleBlindBlock(c, "C01.R12")
+		ruleShrinkReserve(c, "C01.R13")
 	}
 }
 
